@@ -72,14 +72,32 @@ Example C05_nonvacuous :
   end.
 Proof. vm_compute. split; reflexivity. Qed.
 
-(* KNOWN FINDING C05/untagged-member: a value whose encoding contains a member
-   declared without tagNum marshals but does not unmarshal. *)
+(* members declared without tagNum (repaired in /repo, see known_findings.txt: before, such a
+   value marshalled but did not unmarshal): the hypotheses hold and the round trip evaluates as the
+   theorem says for the SEQUENCE with two untagged members and for the CHOICE whose second
+   alternative is an untagged CHOICE *)
 Definition ex_untagged : value := VStruct [VStruct [VBytes [1;2;3;4;5;6;7;8;9;10;11;12;13;14;15;16]]; VNil].
-Theorem C05_untagged_refuted :
-  exists bs, enc ty_IPBinV6AddressWithPrefixLength p0 ex_untagged = Ok bs /\
-             dec ty_IPBinV6AddressWithPrefixLength p0 bs = Err.
-Proof.
-  exists [48; 18; 4; 16; 1; 2; 3; 4; 5; 6; 7; 8; 9; 10; 11; 12; 13; 14; 15; 16].
-  split; vm_compute; reflexivity.
-Qed.
-Print Assumptions C05_untagged_refuted.
+Definition ex_untagged2 : value :=
+  VStruct [VStruct [VBytes [1;2;3;4;5;6;7;8;9;10;11;12;13;14;15;16]]; VPtr (VStruct [VInt 56])].
+Definition ex_untagged_choice : value :=
+  VStruct [VInt 2; VNil; VPtr (VStruct [VInt 2; VNil; VPtr ex_untagged2])].
+Example C05_untagged_members :
+  ok ty_IPBinV6AddressWithPrefixLength p0 ex_untagged = true /\
+  enc ty_IPBinV6AddressWithPrefixLength p0 ex_untagged =
+    Ok [48; 18; 4; 16; 1; 2; 3; 4; 5; 6; 7; 8; 9; 10; 11; 12; 13; 14; 15; 16] /\
+  dec ty_IPBinV6AddressWithPrefixLength p0 [48; 18; 4; 16; 1; 2; 3; 4; 5; 6; 7; 8; 9; 10; 11; 12; 13; 14; 15; 16] =
+    Ok (canon ty_IPBinV6AddressWithPrefixLength false ex_untagged) /\
+  ok ty_IPBinV6AddressWithPrefixLength p0 ex_untagged2 = true /\
+  ok ty_IPBinaryAddress p0 ex_untagged_choice = true /\
+  match enc ty_IPBinaryAddress p0 ex_untagged_choice with
+  | Ok bs => dec ty_IPBinaryAddress p0 bs = Ok (canon ty_IPBinaryAddress false ex_untagged_choice)
+  | _ => False
+  end.
+Proof. vm_compute. repeat split. Qed.
+
+(* every SEQUENCE, SET and CHOICE of the 195 schema types is unambiguous: its members start with
+   pairwise different identifiers, so the distinctness part of [ok] holds for every value of the
+   schema (regenerated from /repo on this run) *)
+Theorem C05_schema_unambiguous : forallb (fun e => ty_distinct (snd e)) schema = true.
+Proof. vm_compute. reflexivity. Qed.
+Print Assumptions C05_schema_unambiguous.
